@@ -115,6 +115,13 @@ pub fn run(ctx: &Ctx) -> i32 {
             let q = f.doc.key();
             pairs.push((format!("zz_probe{k}"), format!("package zz.probe; import {q}; parcelable Probe{k} {{ {q} f; }}")));
         }
+        // ... and one probe per item that imports EVERY item of the project and refers to this one by its full
+        // name: the reference must resolve to an import that designates it (equal to it, or ending in '.'+name)
+        let all_imports: String = pr.files.iter().map(|f| format!("import {}; ", f.doc.key())).collect();
+        for (k, f) in pr.files.iter().enumerate() {
+            let q = f.doc.key();
+            pairs.push((format!("zz_probe_all{k}"), format!("package zz.probe; {all_imports}parcelable ProbeAll{k} {{ {q} f; }}")));
+        }
         let key = hash_str(&pairs.iter().map(|f| f.1.clone()).collect::<Vec<_>>().join("\u{1}"));
         let res = match libx::parse_project(&pairs) {
             Ok(r) => r,
@@ -166,11 +173,25 @@ pub fn run(ctx: &Ctx) -> i32 {
                 }
             }
         }
+        for (k, f) in pr.files.iter().enumerate() {
+            let q = f.doc.key();
+            if let Some(a) = res.valid.get(&format!("zz_probe_all{k}")).and_then(|r| r.ast.as_ref()) {
+                if let ast::Item::Parcelable(p) = &a.item {
+                    if let Some(ast::ParcelableElement::Field(fl)) = p.elements.first() {
+                        st.inc("registration_probes(all items imported)");
+                        match &fl.field_type.kind {
+                            ast::TypeKind::ResolvedItem(k2, _) if *k2 == q || k2.ends_with(&format!(".{q}")) => {}
+                            other => problems.push(format!("{}: a reference written `{q}` in a file importing every item of the project resolves to {:?}, which does not designate that item", f.id, other)),
+                        }
+                    }
+                }
+            }
+        }
         if st.want_sample() && pairs.len() > 1 && pairs.iter().all(|f| f.1.len() < 500) {
             st.sample(json!({"files": pairs}));
         }
         if let Some(p0) = problems.first() {
-            let sig = if p0.contains("item symbol: qualified") { "item-qualified-name" } else if p0.contains("not registered") { "registration-key" } else { "symbol-name" };
+            let sig = if p0.contains("item symbol: qualified") { "item-qualified-name" } else if p0.contains("not registered") || p0.contains("does not designate") { "registration-key" } else { "symbol-name" };
             st.violate("projects", i, sig, p0.chars().take(500).collect(), json!({"files": pairs, "problems": problems}));
         }
     });
